@@ -395,6 +395,15 @@ class SymComplex:
         m = self.re.exp()
         return SymComplex(m * self.im.cos(), m * self.im.sin())
 
+    def erf(self):
+        """Complex error function as a pair of binary uninterpreted functions of (re, im)."""
+        import z3 as _z3
+
+        fr = _z3.Function("cerf_re", _z3.RealSort(), _z3.RealSort(), _z3.RealSort())
+        fi = _z3.Function("cerf_im", _z3.RealSort(), _z3.RealSort(), _z3.RealSort())
+        a, b = _z3.simplify(self.re.e), _z3.simplify(self.im.e)
+        return SymComplex(SymReal(fr(a, b)), SymReal(fi(a, b)))
+
     def __eq__(self, o):
         o = SymComplex.of(o)
         a, b = self.re == o.re, self.im == o.im
